@@ -27,9 +27,12 @@ EXTENDS Gldap, Json, IOUtils, SequencesExt
 
 Tr == ndJsonDeserialize(IOEnv.OBS)     \* one record per trace: [id |-> Nat, procs |-> Seq(Seq(event))]
 
+CONSTANTS TrackFrontier,   \* record, per trace, the deepest point the replay reached (to explain a rejection; costs time)
+          MaxDev      \* search bound: how often the replay may depart from the logged order (see RNext)
 VARIABLES tid,    \* the trace being replayed
-          pos     \* [process index -> index of its next event]
-rvars == <<vars, tid, pos>>
+          pos,    \* [process index -> index of its next event]
+          dev     \* number of times the replay has not taken the earliest logged line that was ready
+rvars == <<vars, tid, pos, dev>>
 
 Procs == 1..Len(Tr[tid].procs)
 Q(p) == Tr[tid].procs[p]
@@ -40,8 +43,9 @@ AllConsumed == \A p \in Procs : ~Pending(p)
 RInit == /\ Init
          /\ tid \in 1..Len(Tr)
          /\ pos = [p \in 1..Len(Tr[tid].procs) |-> 1]
+         /\ dev = 0
 
-Keep == UNCHANGED <<tid, pos>>
+Keep == UNCHANGED <<tid, pos, dev>>
 Same == UNCHANGED vars
 \* everything logged before line m has been consumed
 Barrier(m) == \A q \in Procs : Pending(q) => Ev(q).seq >= m
@@ -54,20 +58,24 @@ RunSilent == RunLoopHead \/ RunAcceptClosed \/ RunAcceptTempErr \/ (ListenFails 
 \* a read that dispatches nothing: EOF, shutdown deadline, malformed frame
 ConnSilent(c) == \/ ConnHead(c) \/ ConnHandshake(c)
                  \/ (ConnRead(c) /\ dispatched' = dispatched /\ afterUnbind' = afterUnbind)
-Opt(A) == A \/ UNCHANGED rvars
-Upto6(A) == LET S1 == Opt(A)  S2 == S1 \cdot S1  S4 == S2 \cdot S2 IN S4 \cdot S2
+\* zero to five steps of A (the chain stops at the first stutter, so a sequence of k steps is found along one path only)
+Upto5(A) == LET U1 == UNCHANGED rvars \/ A
+                U2 == UNCHANGED rvars \/ (A \cdot U1)
+                U3 == UNCHANGED rvars \/ (A \cdot U2)
+                U4 == UNCHANGED rvars \/ (A \cdot U3)
+            IN  UNCHANGED rvars \/ (A \cdot U4)
 \* A preceded by the unlogged steps of its own goroutine
-AfterRun(A) == Upto6(RunSilent /\ Keep) \cdot A
-AfterConn(c, A) == Upto6(ConnSilent(c) /\ Keep) \cdot A
+AfterRun(A) == Upto5(RunSilent /\ Keep) \cdot A
+AfterConn(c, A) == Upto5(ConnSilent(c) /\ Keep) \cdot A
 
 --------------------------------------------------------------------------
 (* one logged event *)
 IsGate(e, k) == e.ev = "gate" /\ e.k = k
 InConns(c) == c \in Conns
 RealEOF == {"eof", "eof-midframe", "rst"}
-Step(p) ==
+Step(p, d) ==
   LET e == Ev(p)
-      Consume == pos' = [pos EXCEPT ![p] = @ + 1] /\ UNCHANGED tid
+      Consume == pos' = [pos EXCEPT ![p] = @ + 1] /\ UNCHANGED tid /\ dev' = dev + d
   IN
   CASE e.ev = "env_begin" -> Same /\ Consume
     \* ---- Run goroutine
@@ -123,10 +131,19 @@ Passive(p) == LET e == Ev(p) IN
   \/ e.ev = "eof" /\ ((InConns(e.c) /\ e.val \in RealEOF) => sock[e.c] = "closed")
   \/ e.ev = "ready" /\ ready
 Ripe(p) == Pending(p) /\ Barrier(Ev(p).after)
+\* The logged order is almost always a possible order, so the search follows it: among the ready lines the one logged
+\* first is tried as it is; taking another one counts as a departure, and at most MaxDev departures are explored (the
+\* driver raises MaxDev for the traces that were not accepted, in the end to "unbounded": nothing is lost, only found sooner)
 RNext == /\ Tr[tid].id \notin TLCGet(1)
-         /\ LET eager == {p \in Procs : Ripe(p) /\ Passive(p)} IN
-            IF eager # {} THEN Step(CHOOSE p \in eager : \A q \in eager : p <= q)
-            ELSE \E p \in Procs : Ripe(p) /\ Step(p)
+         /\ LET eager == {p \in Procs : Ripe(p) /\ Passive(p)}
+                \* (an assertion line whose condition does not hold yet cannot be taken now: it is no candidate)
+                ripe == {p \in Procs : Ripe(p) /\ (Ev(p).ev \in {"hstart", "hunbind", "eof", "ready"} => Passive(p))}
+                first == CHOOSE p \in ripe : \A q \in ripe : Ev(p).seq <= Ev(q).seq IN
+            IF eager # {} THEN Step(CHOOSE p \in eager : \A q \in eager : p <= q, 0)
+            ELSE /\ ripe # {}
+                 /\ \/ Step(first, 0)
+                    \/ LET d == IF ENABLED Step(first, 0) THEN 1 ELSE 0 IN      \* (not taking a line that cannot be taken is no departure)
+                       dev + d <= MaxDev /\ \E p \in ripe \ {first} : Step(p, d)
 
 \* ---- acceptance: register 1 holds the ids of the traces that have been replayed to the end; register 2, per trace,
 \* the largest number of events consumed so far and which events were pending there (to explain a rejection)
@@ -135,7 +152,8 @@ PendingEvents == {[p |-> p, ev |-> Ev(p).ev, k |-> Ev(p).k, conn |-> Ev(p).conn,
 Record ==
   /\ IF AllConsumed THEN TLCSet(1, TLCGet(1) \cup {Tr[tid].id}) ELSE TRUE
   /\ LET best == TLCGet(2) IN
-     IF Tr[tid].id \notin DOMAIN best \/ best[Tr[tid].id].n < Total
+     IF ~TrackFrontier THEN TRUE
+     ELSE IF Tr[tid].id \notin DOMAIN best \/ best[Tr[tid].id].n < Total
        THEN TLCSet(2, [x \in (DOMAIN best) \cup {Tr[tid].id} |-> IF x = Tr[tid].id THEN [n |-> Total, pending |-> PendingEvents] ELSE best[x]])
        ELSE TRUE
 \* a trace that has been accepted needs no further exploration
